@@ -344,6 +344,13 @@ fn family_substitution(thorough: bool) -> Vec<Case> {
 fn family_special() -> Vec<Case> {
     let mut out = Vec::new();
     let d = |n: &str, p: &[&str], b: &str| MacroDef { name: n.into(), params: p.iter().map(|s| s.to_string()).collect(), body: b.into() };
+    // the parameter name "_" (syntax.md uses it for "no parameter": defined and used with _) is a name like any
+    // other when the body mentions it and the use passes something else
+    out.push(Case { family: "underscore-parameter", defs: vec![d("skip", &["_"], "jmp _")], data: String::new(), code: "start:\nskip(done)\ninc ax\ndone:\n_:\n".into() });
+    out.push(Case { family: "underscore-parameter", defs: vec![d("both", &["_"], "mov ax, _ mov bx, _")], data: String::new(), code: "start:\nboth(0x1234)\nboth(cx)\n".into() });
+    out.push(Case { family: "underscore-parameter", defs: vec![d("two", &["_", "v"], "mov _, v")], data: String::new(), code: "start:\ntwo(dx, 7)\n".into() });
+    out.push(Case { family: "underscore-parameter", defs: vec![d("none", &["_"], "cld")], data: String::new(), code: "start:\nnone(_)\nnone(_)\n".into() });
+    out.push(Case { family: "underscore-parameter", defs: vec![d("a_", &["_a", "a_"], "mov _a, a_")], data: String::new(), code: "start:\na_(si, 3)\n".into() });
     // definition layouts: the first and the last word of the body is a parameter / a keyword / a bracket, written
     // directly against the arrows
     for fam in ["definition-layout-1", "definition-layout-2", "definition-layout-3", "definition-layout-4"] {
